@@ -57,6 +57,10 @@ def image_bytes(spec):
     data = bytearray(rnd.getrandbits(8) for _ in range(n))
     if fill == "lastff" and n:
         data[-1] = 0xFF
+    if fill == "gap" and n >= 6:
+        # erased flash between two sections (a sketch and something higher up): a hex file leaves such a
+        # region out altogether
+        data[n // 3: 2 * n // 3] = b"\xff" * (2 * n // 3 - n // 3)
     return bytes(data)
 
 
